@@ -247,14 +247,25 @@ func runScenario(threads []threadSpec) (log *eventLog, hung bool) {
 					prompting.UnregisterPrompter(t.id)
 					res = "ok"
 				}()
-			case "msg":
-				res = classify(prompting.Message(t.id, text))
-			case "prompt":
-				resp, err := prompting.Prompt(t.id, text)
-				res = classify(err)
-				if err == nil && resp != "response" {
-					res = "other"
-				}
+			case "msg", "prompt":
+				// A run-time panic (send on a closed holder) must not take the
+				// harness down: it is reported as the result "pn".
+				func() {
+					defer func() {
+						if recover() != nil {
+							res = "pn"
+						}
+					}()
+					if t.op == "msg" {
+						res = classify(prompting.Message(t.id, text))
+						return
+					}
+					resp, err := prompting.Prompt(t.id, text)
+					res = classify(err)
+					if err == nil && resp != "response" {
+						res = "other"
+					}
+				}()
 			}
 			log.add("r"+ks+":"+res, "")
 		}(k, t)
@@ -505,7 +516,7 @@ func main() {
 		}
 		// (ii) registry traces.
 		cleanup()
-		for i := 0; i < c.Size(8000, 150000); i++ {
+		for i := 0; i < c.Size(5000, 100000); i++ {
 			threads := randScenario(c.R)
 			log, hung := runScenario(threads)
 			var left []string
